@@ -94,3 +94,16 @@ Example C08_backup_refused_while_running_ex :
   backup_start rm_s0 <> None /\ backup_start (set_stage rm_s0 BKP_MAIN_COPY) = None /\
   p_stage (snd (backup_run rm_cfg rm_s0 5 9 [] rm_evA)) = 0.
 Proof. vm_compute. repeat split; try reflexivity. discriminate. Qed.
+
+(* a backup that fails in any stage (target not writable) returns with stage 0 and no lock held, so the store goes
+   on and the next backup is accepted (model of the error exits; the real exits are exercised by checks/C08.py's
+   fault injection on the target in every stage) *)
+Theorem C08_failed_backup_releases : forall c s0 ts2 ts5 evM evA k,
+  let (s, held) := backup_run_fail c s0 ts2 ts5 evM evA k in
+  p_stage s = 0 /\ held = false /\ backup_start s <> None.
+Proof. exact failed_backup_releases. Qed.
+Print Assumptions C08_failed_backup_releases.
+Example C08_failed_backup_releases_ex :
+  p_stage (fst (backup_run_fail rm_cfg rm_s0 5 9 [] rm_evA BKP_WAL_COPY2)) = 0 /\
+  nth 100 (p_disk (fst (backup_run_fail rm_cfg rm_s0 5 9 [] rm_evA BKP_WAL_COPY2))) 0 = 1.
+Proof. vm_compute. split; reflexivity. Qed.
